@@ -42,8 +42,28 @@ def cases(tier, seed):
 def build_history(case):
     rng = core.rng_for(case["seed"], ID, case["idx"])
     prog = progs.gen_program(rng, "vp_%d_%d" % (case["seed"], case["idx"]),
-                             **({"p_hidden": 0.4} if case["idx"] % 5 == 2 else {}))
+                             **({"p_hidden": 0.4} if case["idx"] % 5 == 2 else ({"p_init": 1.0} if case["idx"] % 8 == 6 else {})))
     hist = [(prog, {"kind": "initial"})]
+    if case["idx"] % 8 == 6:
+        # aimed: the first edit changes a plain helper that lives in the package's __init__.py
+        ini = [i for i, nd in enumerate(prog["nodes"]) if nd["mod"] == "i" and nd["kind"] == "plain"]
+        if not ini:  # (move a plain helper that names nothing else into __init__.py)
+            leaf = [i for i, nd in enumerate(prog["nodes"]) if i >= 2 and nd["mod"] == "a" and nd["kind"] == "plain" and not nd["calls"]
+                    and not nd["reads"] and not nd["nested"] and not nd.get("late") and not nd.get("prev") and not nd.get("guard")]
+            if leaf:
+                prog["nodes"][leaf[-1]]["mod"] = "i"
+                ini = [leaf[-1]]
+        users = [u for u, nd in enumerate(prog["nodes"]) if ini and u < ini[0] and nd["mod"] in ("a", "b") and nd["kind"] == "memento"]
+        if ini and users:  # ... and is used by a memento function of a sub-module
+            if not any(c["t"] == ini[0] for c in prog["nodes"][users[-1]]["calls"]):
+                prog["nodes"][users[-1]]["calls"].append({"t": ini[0], "form": "pattr"})
+            hist = [(prog, {"kind": "initial"})]
+        if ini:
+            res = progs.apply_edit(rng, prog, rng.choice(["const", "op"]), force_node=ini[0])
+            if res is not None:
+                prog, desc = res
+                desc["silent"] = False
+                hist.append((prog, desc))
     if case["idx"] % 4 == 1:
         # aimed: two explicitly versioned callees of one function change together, their version strings "1" / "12"
         # become "11" / "2"
